@@ -509,6 +509,31 @@ pub fn render_full(e: &E) -> String {
     }
 }
 
+/// Like `render_full`, but every operator node is additionally multiplied by 1 (`((a+b)*1)`): an implementation that
+/// looks through brackets at the shape of the operand (folding, fusing, cancelling nodes) cannot recognise the shape
+/// any more, while the value is unchanged (x*1 = x exactly in f64, i64, Decimal and Number; not used for complex).
+pub fn render_opaque(e: &E) -> String {
+    let w = |s: String| format!("(({})*1)", s);
+    match e {
+        E::Lit(t) => format!("({})", t),
+        E::Const(c) => format!("({})", c),
+        E::Ans => "(@)".to_string(),
+        E::Neg(a) => w(format!("-{}", render_opaque(a))),
+        E::Pos(a) => w(format!("+{}", render_opaque(a))),
+        E::Bin(op, a, b) => w(format!("{}{}{}", render_opaque(a), op.text(), render_opaque(b))),
+        E::Sup(a, d) => w(format!("{}^({})", render_opaque(a), d)),
+        E::Fact(a) => w(format!("{}!", render_opaque(a))),
+        E::Deg(a) => w(format!("{}°", render_opaque(a))),
+        E::Rad(a) => w(format!("{}rad", render_opaque(a))),
+        E::Group(br, a) => format!("({}{}{})", br.open(), render_opaque(a), br.close()),
+        E::Call(n, args) => {
+            let a: Vec<String> = args.iter().map(render_opaque).collect();
+            w(format!("{}({})", n, a.join(",")))
+        }
+        E::Juxt(a, b) => w(format!("{}*{}", render_opaque(a), render_opaque(b))),
+    }
+}
+
 pub fn size(e: &E) -> usize {
     match e {
         E::Lit(_) | E::Const(_) | E::Ans => 1,
